@@ -72,6 +72,7 @@ func init() { vRegisterP("VerifReplaceOp", VerifReplaceOp) }
 // arg: fault=<max fault position>
 func VerifReplaceTwo(arg string) {
 	c, w, amounts := vMkWorldOn(2, vParam(arg, "fault", 0), 2)
+	vNoSample() // natively the two per-workload tasks race: which one meets the injected fault is not fixed
 	// w2 sits on node b, which belongs to another pod
 	w.st.nodes["b"].Podname = "p2"
 	w2 := w.st.workloads["w2"]
